@@ -16,7 +16,8 @@ RES = sys.argv[2] if len(sys.argv) > 2 else "/tmp/seedwt/results"
 # what was added to a check because of a seeded change (the properties are unchanged).  OBSERVED_MISS: the check ran against the
 # change and exited 0 (or 3) before the addition; for the others the addition was made on reading the change's description,
 # before the first run against it.
-OBSERVED_MISS = {"C03_b", "C04_a", "C05_a", "C07_b", "C09_a", "C09_b", "C11_a", "C11_b", "C12_b", "C14_a", "C16_b", "C18_a"}
+OBSERVED_MISS = {"C03_b", "C04_a", "C05_a", "C07_b", "C09_a", "C09_b", "C11_a", "C11_b", "C12_b", "C14_a", "C16_b", "C18_a",
+                 "C04_c", "C06_c"}
 STRENGTHENED = {
     "C03_b": "C03 quick tier gained a triclinic configuration; the np.linalg.solve facade was missing (harness error before)",
     "C04_a": "C04: two-frame configurations for every species count (ternary and up were single-frame)",
@@ -38,6 +39,13 @@ STRENGTHENED = {
     "C18_b": "C18: integer-valued float64 wave-vector array handed to conditional_sq twice",
     "C19_a": "C19: type maps whose values are again keys, and a pure swap",
     "C19_b": "C19: frames sharing one int64 typeid array; converting the same sequence twice",
+    # second round (one change per property, different mechanism and site from the first round)
+    "C04_c": "C18: the same gr / sq object is asked for its results a second time (the first answer must not alter the object)",
+    "C06_c": "C07: wrapped relaxation with an independent image vector per particle *and frame*, in a triclinic cell",
+    "C10_c": "C10: sheared box - same edge lengths, tilt changing between frames",
+    "C13_c": "C13: machine-integer capacity side query (casts taken from the AST, z3 decides whether N-1 counts fit, dense-cluster replay)",
+    "C16_c": "C16: rank-2 (non-symmetric tensor) property in the blurring harness",
+    "C17_c": "C17: nematic tensor asked again from the same object after the neighbour file was regenerated under the same name",
 }
 
 
